@@ -54,6 +54,8 @@ def emit_histories(ctx, simulate=0):
         raise lib.Machinery("no histories emitted")
     nsim = 0
     if simulate:
+        # num is per worker; TLC evaluates Out on every generated successor, so each trace yields the final
+        # step's siblings as well
         s = ctx.tlc("Emulator", "Emulator_Sim.cfg", simulate=f"num={simulate}", depth=8, seed=ctx.seed or 1,
                     timeout=1500, allow_error=True)
         sim = [p for p in s.printed if isinstance(p, dict) and "hist" in p]
@@ -204,7 +206,7 @@ def nontrivial(h):
 def run(ctx):
     ctx.level = "model_checking"
     model_check(ctx, deep=not ctx.quick)
-    hs, n_exh, n_sim = emit_histories(ctx, simulate=0 if ctx.quick else 40000)
+    hs, n_exh, n_sim = emit_histories(ctx, simulate=0 if ctx.quick else 150)
     ctx.log(f"{len(hs)} distinct histories ({n_exh} exhaustive depth 3, {n_sim} simulated depth 6)")
     obs, execute = replay_budgeted(ctx, hs, first=ctx.pick(150, 1500), cap=ctx.pick(4000, 20000),
                                    budget_s=ctx.pick(45, 600))
